@@ -118,6 +118,30 @@ pub fn compile_in(
   Outcome::Compiled(Compiled { ts, wat, wasm, main_fn })
 }
 
+/// `vh mir-dump --json FILE --opt N`: prints the (optimised) MIR of the program (debugging aid)
+pub fn mir_dump_main(args: &[String]) {
+  use crate::util::{arg, arg_or};
+  let sources: BTreeMap<String, String> =
+    serde_json::from_str(&std::fs::read_to_string(arg(args, "--json").expect("--json")).unwrap()).unwrap();
+  let opt = OptBits(arg_or(args, "--opt", "31").parse().unwrap());
+  let mut heap = Heap::new();
+  let mut handles: HashMap<ModuleReference, String> = samlang_parser::builtin_std_raw_sources(&mut heap);
+  for (name, text) in &sources {
+    let m = module_ref(&mut heap, name);
+    handles.insert(m, text.clone());
+  }
+  let mut error_set = samlang_errors::ErrorSet::new();
+  let mut parsed = HashMap::new();
+  for (m, text) in &handles {
+    parsed.insert(*m, samlang_parser::parse_source_module_from_text(text, *m, &mut heap, &mut error_set));
+  }
+  let checked = samlang_checker::type_check_sources(&parsed, &mut error_set).0;
+  assert!(!error_set.has_errors(), "program rejected");
+  let mir = samlang_compiler::compile_sources_to_mir(&mut heap, &checked);
+  let mir = samlang_optimization::optimize_sources(&mut heap, mir, &opt.config());
+  println!("{}", mir.debug_print(&heap));
+}
+
 /// `vh mir-types --in PROGRAMS.ndjson --out FILE`: per program, the enum layouts chosen by the
 /// compiler (read from the public `mir::Sources.type_definitions` of the unoptimised MIR):
 /// {"id", "layouts": {"<TypeName>": ["i31" | "unboxed" | "boxed", ...]}}
